@@ -1,3 +1,37 @@
--- stub: the driver of C05 is not built yet
 import WmModel.Basic
-def main : IO Unit := Wm.driverMain (fun _ => "bad-op")
+import WmModel.GcConf
+import WmModel.GcMon
+open Wm
+
+/-- `sub` streams: model = conformance with M_sub (subset construction); monitor = at most one unsettled copy,
+    read off the stream itself: every `R` must find all earlier receipts settled.
+    `top` traces: model answers `ok` (nothing to predict); monitor = the C05 clauses of GcMon. -/
+def subMonitor (toks : List String) : String := Id.run do
+  let mut received := 0
+  let mut settled : List Nat := []
+  for t in toks do
+    match t.toList with
+    | ['R'] =>
+      for k in [0:received] do
+        if !settled.contains k then return "violated:one_unsettled(next-delivered-before-settle)"
+      received := received + 1
+    | 'A' :: ds => if let some k := (String.ofList ds).toNat? then settled := k :: settled
+    | 'N' :: ds => if let some k := (String.ofList ds).toNat? then settled := k :: settled
+    | _ => pure ()
+  return "ok"
+
+def handle (line : String) : String :=
+  let (req, _obs) := match line.splitOn " ## " with
+    | [r, o] => (r, o)
+    | _ => (line, "")
+  match req.splitOn " " with
+  | "M" :: "sub" :: cap :: toks =>
+    match cap.toNat? with
+    | some c => GcConf.checkSub c (if toks == ["-"] then [] else toks)
+    | none => "bad-op"
+  | "P" :: "sub" :: _ :: toks => subMonitor toks
+  | "M" :: "top" :: _ => "ok"
+  | "P" :: "top" :: toks => GcMon.runMon GcMon.monC05 toks
+  | _ => "bad-op"
+
+def main : IO Unit := driverMain handle
